@@ -186,6 +186,12 @@ impl ExecutorInner {
             })
         });
 
+        // Restore the counter of in-flight messages of the enclosing executor,
+        // if any. This must be done on the panic path as well: the thread's
+        // counter would otherwise keep the count of this executor and the
+        // enclosing one would report spurious unprocessed messages.
+        self.context.msg_count = channel::THREAD_MSG_COUNT.replace(msg_count_stash);
+
         // Return the panic payload, if any.
         if let Err(payload) = result {
             let model_id = CURRENT_MODEL_ID.take();
@@ -194,7 +200,6 @@ impl ExecutorInner {
         }
 
         // Check for unprocessed messages.
-        self.context.msg_count = channel::THREAD_MSG_COUNT.replace(msg_count_stash);
         if self.context.msg_count != 0 {
             let msg_count: usize = self.context.msg_count.try_into().unwrap();
 
